@@ -115,6 +115,37 @@ func skeleton(fd *ast.FuncDecl) []string {
 	return out
 }
 
+// relevant drops from a skeleton what C16 does not speak about — the user's name and password —
+// so that a change there does not break a C16 obligation: single statements that mention them, and
+// whole `if` blocks whose condition does.
+func relevant(sk []string) []string {
+	other := func(l string) bool {
+		return strings.Contains(l, "Password") || strings.Contains(l, "u.Name") || l == "return nil"
+	}
+	var out []string
+	for i := 0; i < len(sk); i++ {
+		l := sk[i]
+		if strings.HasPrefix(l, "if ") && other(l) {
+			for depth := 1; depth > 0 && i+1 < len(sk); {
+				i++
+				switch {
+				case sk[i] == "end":
+					depth--
+				case strings.HasPrefix(sk[i], "if "), strings.HasPrefix(sk[i], "for"), strings.HasPrefix(sk[i], "range "),
+					strings.HasPrefix(sk[i], "switch"), strings.HasPrefix(sk[i], "case "), sk[i] == "default", sk[i] == "block":
+					depth++
+				}
+			}
+			continue
+		}
+		if other(l) {
+			continue
+		}
+		out = append(out, l)
+	}
+	return out
+}
+
 func sig(fd *ast.FuncDecl) string {
 	if fd == nil {
 		return ""
@@ -191,7 +222,11 @@ func init() {
 				e.Unknown("func " + f.lean)
 			}
 			e.P("/-- %s %s -/", f.name, sig(fd))
-			e.P("def pmSkel_%s : List String := %s", f.lean, LeanStrList(skeleton(fd)))
+			sk := skeleton(fd)
+			if f.lean == "userInit" || f.lean == "CopyFrom" {
+				sk = relevant(sk)
+			}
+			e.P("def pmSkel_%s : List String := %s", f.lean, LeanStrList(sk))
 		}
 		// the two right constants: PullRight = 1 << iota, PushRight
 		rights := ""
